@@ -7,7 +7,7 @@
     spec/BlockTrace.tla, every atomic on dbpd_atomic_flags / dbpd_performed / dbpd_queue and the private
     group's leave matched word by word, all Block.tla invariants evaluated in every state of the accepted behaviour.
 (V1) API oracles in the driver (the property's statements on the recorded total order), crash (70), hang (71)."""
-import os, json, collections
+import os, json, collections, shutil
 from concurrent.futures import ThreadPoolExecutor
 from vlib import *
 
@@ -148,6 +148,152 @@ def _stats(path, c):
                 c["notify_" + ("before_completion" if lv is None or i < lv else "after_completion")] += 1
 
 
+API_CFG = "BlockTrace_api.cfg"
+CALLS = ("CancelCall", "WaitCall", "TestCall", "NotifyCall", "SubmitCall", "PerformCall")
+
+
+def _classify(path, k):
+    """Derive a deviation from the first record no spec action explains (line k of the trace with header):
+    a point-wise override of an action's word function on dbpd_atomic_flags, abstracted over the thread,
+    or a named deviation.  None = the trace cannot be followed (DRIFT-UNFOLLOWABLE)."""
+    lines = [json.loads(x) for x in open(path) if x.strip()]
+    if not k or k > len(lines):
+        return None
+    rec = lines[k - 1]
+    t = rec.get("t")
+    call, j = None, k - 2
+    while j >= 0:
+        x = lines[j]
+        if x.get("e") == "Reset":
+            break
+        if x.get("t") == t and x.get("e") in CALLS:
+            call = (j, x)
+            break
+        j -= 1
+    if call is None:
+        return None
+    mine = [x for x in lines[call[0] + 1:k - 1] if x.get("t") == t]
+    if rec.get("e") == "AF":
+        if call[1]["e"] == "CancelCall":
+            act = "c_or"
+        elif call[1]["e"] == "WaitCall":
+            if not any(x["e"] == "AF" for x in mine):
+                act = "w_or"
+            else:
+                ret = next((x for x in lines[k:] if x.get("t") == t and x.get("e") == "WaitRet"), None)
+                act = "w_fin_ok" if ret is not None and ret.get("r") == 0 else "w_fin_to"
+        else:
+            return None
+        return {"kind": "override", "act": act, "old": int(rec["old"]), "new": int(rec["new"]), "site": rec.get("site")}
+    if rec.get("e") == "CancelRet" and call[1]["e"] == "CancelCall" and not any(x["e"] == "AF" for x in mine):
+        return {"kind": "named", "mut": "cancel_nonatomic", "site": "dispatch_block_cancel"}
+    return None
+
+
+def _dev_files(devs, tag):
+    """Generated modules that instantiate Dev / Mut with the observed deviations (in the run directory,
+    next to copies of the specs)."""
+    d = os.path.join(rundir(PROP), "dev_" + tag)
+    os.makedirs(d, exist_ok=True)
+    for f in ("Block.tla", "BlockTrace.tla"):
+        shutil.copyfile(os.path.join(SPEC, f), os.path.join(d, f))
+    ov = [x for x in devs if x["kind"] == "override"]
+    named = [x["mut"] for x in devs if x["kind"] == "named"]
+    devset = "{" + ", ".join('[act |-> "%s", old |-> %d, new |-> %d]' % (x["act"], x["old"], x["new"]) for x in ov) + "}"
+    open(os.path.join(d, "BlockDevMC.tla"), "w").write(
+        "---- MODULE BlockDevMC ----\nEXTENDS Block\nDevSet == %s\n====\n" % devset)
+    open(os.path.join(d, "BlockTraceDev.tla"), "w").write(
+        "---- MODULE BlockTraceDev ----\nEXTENDS BlockTrace\nDevSet == %s\n====\n" % devset)
+    mut = named[0] if named else "none"
+
+    def conv(cfgname):
+        src = open(os.path.join(SPEC, "cfg", cfgname)).read()
+        src = src.replace("Dev = {}", "Dev <- DevSet").replace('Mut = "none"', 'Mut = "%s"' % mut)
+        out = [x for x in src.splitlines() if not x.startswith("PROPERTIES")]
+        q = os.path.join(d, cfgname)
+        open(q, "w").write("\n".join(out) + "\n")
+        return q
+    return d, conv
+
+
+_MC_CACHE = {}
+
+
+def _mc_deviation(devs, tag):
+    """Model-check the spec WITH the code's observed behaviour: a counterexample is the violation."""
+    key = json.dumps([{k: x[k] for k in x if k != "site"} for x in devs], sort_keys=True)
+    if key not in _MC_CACHE:
+        _MC_CACHE[key] = _mc_deviation1(devs, tag)
+    return _MC_CACHE[key]
+
+
+def _mc_deviation1(devs, tag):
+    d, conv = _dev_files(devs, tag)
+    for cfgname in ("Block_qa.cfg", "Block_qb.cfg", "Block_qc.cfg"):
+        r = tlc_must_pass("deviated " + cfgname, os.path.join(d, "BlockDevMC.tla"), conv(cfgname), timeout=1200,
+                          metaname="c19_dev_%s_%s" % (tag, cfgname), heap="6g")
+        if r.violated:
+            return r, cfgname
+    return None, None
+
+
+def _validate_with_devs(tr, devs, tag):
+    d, conv = _dev_files(devs, tag)
+    return validate_trace(os.path.join(d, "BlockTraceDev.tla"), conv(TCFG), tr, nthreads=count_threads(tr),
+                          metaname="c19_devtr_" + tag, timeout=900)
+
+
+def _judge_rejection(v, res):
+    """DESIGN 6: a rejected trace is a violation only if the API-visible history itself is not a behaviour
+    of the spec (V1), or the spec with the observed deviation admits a violation of the property (V3)."""
+    s, tr = res["seed"], res["tr"]
+    r = res["val2"] or res["val"]
+    k, ctx = _context(r)
+    if r.violated:
+        p = save_replay(PROP, "rejected_seed%d.ndjson" % s, src=r.trace_with_header)
+        v.violation("trace rejected: invariant %s violated in the matched prefix; last records: %s" % (r.violated, ctx), p)
+        return
+    ra = validate_trace(TSPEC, API_CFG, tr, nthreads=count_threads(tr), metaname="c19api%d" % res["i"], timeout=900)
+    if not ra.accepted:
+        ka, ctxa = _context(ra)
+        p = save_replay(PROP, "rejected_seed%d.ndjson" % s, src=ra.trace_with_header)
+        why = ("invariant %s violated" % ra.violated) if ra.violated else "no spec behaviour has this API-visible history"
+        v.violation("trace rejected at word level (record %d: %s) and at API level: %s at record %d: %s"
+                    % (k, ctx[-300:], why, ka, ctxa), p)
+        return
+    devs, cur = [], r
+    for it in range(3):
+        dv = _classify(cur.trace_with_header, cur.maxl)
+        if dv is None or dv in devs:
+            break
+        devs.append(dv)
+        tag = "s%d_%d" % (s, it)
+        bad, cfgname = _mc_deviation(devs, tag)
+        if bad is not None:
+            p = save_replay(PROP, "deviation_seed%d.tlc.out" % s,
+                            "DEVIATION %s\nobserved in %s at record %d: %s\n\nTLC on the deviated spec (%s): invariant %s violated\n\n%s"
+                            % (json.dumps(devs), tr, k, ctx, cfgname, bad.violated, bad.out[-6000:]))
+            save_replay(PROP, "deviation_seed%d.ndjson" % s, src=r.trace_with_header)
+            v.violation("the code deviates from the spec (%s) and the spec with this deviation violates %s (%s)"
+                        % (json.dumps(dv), bad.violated, cfgname), p)
+            return
+        cur = _validate_with_devs(tr, devs, tag)
+        if cur.violated:
+            p = save_replay(PROP, "rejected_seed%d.ndjson" % s, src=cur.trace_with_header)
+            v.violation("with deviation %s the trace violates invariant %s" % (json.dumps(devs), cur.violated), p)
+            return
+        if cur.accepted:
+            v.drift.append("site=%s deviation=%s harmless: the deviated spec satisfies every invariant in the quick bounds"
+                           % (dv.get("site"), json.dumps(devs)))
+            v.traces += 1
+            return
+    kk, cc = _context(cur)
+    v.traces += 1       # validated at API level only
+    v.notes["traces_validated_at_api_level_only"] = v.notes.get("traces_validated_at_api_level_only", 0) + 1
+    v.drift.append("UNFOLLOWABLE at record %d (%s): the API-visible history is a behaviour of the spec and every API "
+                   "oracle passed; word-level binding lost for this run (update Block.tla)" % (kk, cc[-400:]))
+
+
 def _run_one(job):
     drv, tr, s, perturb, execs, i = job
     rc, out, err = sh([drv, tr, str(s), str(perturb), str(execs)], timeout=600)
@@ -199,16 +345,9 @@ def _trace_collect(v, results):
         if rc != 0:
             raise Broken("driver failed rc=%d: %s" % (rc, res["err"][-1000:]))
         r = res["val"]
-        if not r.accepted:
-            r2 = res["val2"]
-            if r2 is None or not r2.accepted:
-                rr = r2 or r
-                k, ctx = _context(rr)
-                p = save_replay(PROP, "rejected_seed%d.ndjson" % s, src=rr.trace_with_header)
-                why = ("invariant %s violated in the matched prefix" % rr.violated) if rr.violated else \
-                      "no spec action explains record %d" % k
-                v.violation("trace rejected: %s; last records: %s" % (why, ctx), p)
-                continue
+        if not r.accepted and (res["val2"] is None or not res["val2"].accepted):
+            _judge_rejection(v, res)
+            continue
         v.traces += 1
         v.states += r.distinct
         v.transitions += r.generated
